@@ -14,6 +14,7 @@ from .. import common, solvex, cfgs, monitors as mon
 
 LEVEL = "exploration"
 MOD = "C20"
+SITE_EXEMPT = {}     # evaluation sites this check cannot reach (site -> reason); see solvex.site_floor
 
 
 def _arr_equal(a, b, what):
@@ -260,6 +261,7 @@ def run(report, tier, seed):
     salts = common.salts_for(tier, seed)
     cps = _configs(tier, salts)
     res = solvex.explore(report, MOD, cps, classify=classify)
+    solvex.site_floor(report, res["tags"], exempt=SITE_EXEMPT)
     nsyn, flags = _synthetic(report)
     tags = res["tags"]
     cov = report.coverage
